@@ -296,4 +296,27 @@ theorem chain_nodes_in_verts {g : TGraph} (hends : ∀ e ∈ g.edges, e.1 ∈ ve
         · exact (hends _ he).1
       exact chain_nodes_in_verts hends (w :: t) w rfl hw hc.2 x hx
 
+/-- on a view with one edge per unordered pair the relation of an edge is determined by its ends -/
+theorem edge_rel_unique {g : TGraph} (hu : UniqEdges g) {u v r r' : String} (h : Edge g u v r) (h' : Edge g u v r') : r = r' := by
+  have a := relOf_of_edge hu h
+  have b := relOf_of_edge hu h'
+  rw [a] at b
+  exact Option.some.inj b
+
+/-- pigeonhole: a list without repeats whose members all lie in `m` is not longer than `m` -/
+theorem nodup_length_le_of_subset : ∀ (l m : List String), l.Nodup → (∀ x ∈ l, x ∈ m) → l.length ≤ m.length
+  | [], _, _, _ => Nat.zero_le _
+  | x :: t, m, hn, hs => by
+    have hx : x ∈ m := hs x (by simp)
+    have hn' := List.nodup_cons.1 hn
+    have : t.length ≤ (m.erase x).length := by
+      apply nodup_length_le_of_subset t (m.erase x) hn'.2
+      intro y hy
+      have hne : y ≠ x := fun h => hn'.1 (h ▸ hy)
+      exact (List.mem_erase_of_ne hne).2 (hs y (by simp [hy]))
+    rw [List.length_erase_of_mem hx] at this
+    have hpos : 0 < m.length := List.length_pos_of_mem hx
+    simp only [List.length_cons]
+    omega
+
 end FimVerif.Query
